@@ -68,21 +68,16 @@ def _is_connected_cached(cls, x, y):
     if x == y:
         result = True
     else:
-        t, f, result = sympy.Max, sympy.Min, False
-        for _ in range(2):
-            for op in "><":
-                try:
-                    v = (x >= y) if op == ">" else (x <= y)
-                except TypeError:
-                    break
-                if not v.is_Relational:
-                    result = t if v else f
-                    break
-                t, f = f, t
-                x, y = y, x
-            if result is not False:
+        # The answer is stated for `x`: Max if x >= y is known, Min if y >= x is known.
+        result = False
+        for lhs, rhs, if_true, if_false in ((x, y, sympy.Max, sympy.Min), (y, x, sympy.Min, sympy.Max)):
+            try:
+                v = lhs >= rhs
+            except TypeError:
                 break
-            x, y = y, x
+            if not v.is_Relational:
+                result = if_true if v else if_false
+                break
     if len(_is_connected_cache) >= 200_000:
         _is_connected_cache.clear()
     _is_connected_cache[key] = result
